@@ -32,6 +32,7 @@ type cfgScript struct {
 // "lit" = the literal Lit.
 type opScript struct {
 	K     string `json:"k"` // "send" | "verify" | "sleep" (timed class only: let SleepNs of real time pass)
+	N     int    `json:"n,omitempty"` // the call is made N times in a row (0 = once)
 	Sleep int64  `json:"sleep_ns,omitempty"`
 	A     string `json:"a"`
 	P     string `json:"p"`
@@ -46,6 +47,7 @@ type opScript struct {
 
 type script struct {
 	Class string     `json:"class"`
+	RL    bool       `json:"rl,omitempty"` // emit the history in run-length form (long histories)
 	Cfg   cfgScript  `json:"cfg"`
 	Ops   []opScript `json:"ops"`
 }
@@ -82,6 +84,7 @@ type obsRec struct {
 	RHash  string      `json:"returned_hash,omitempty"`
 	Calls  [][3]string `json:"sms_calls,omitempty"`
 	Panic  string      `json:"panic,omitempty"`
+	Count  int         `json:"count,omitempty"` // run-length form: this many consecutive identical calls / observations
 	hashID int64
 	rhID   int64
 }
@@ -228,7 +231,14 @@ func runScriptTimed(s *script) (vh.Case, bool) {
 	start := time.Now()
 	var recs []obsRec
 	nontrivial := false
+	var flat []opScript
 	for _, o := range s.Ops {
+		flat = append(flat, o)
+		for i := 1; i < o.N; i++ {
+			flat = append(flat, o)
+		}
+	}
+	for _, o := range flat {
 		ps := get(o.A, o.P)
 		rec := obsRec{Kind: o.K, A: o.A, P: o.P}
 		switch o.K {
@@ -313,8 +323,15 @@ func runScriptTimed(s *script) (vh.Case, bool) {
 			}
 		}
 	}
+	coq := ""
+	if s.RL {
+		recs = compress(recs)
+		coq = coqHistR(&s.Cfg, recs)
+	} else {
+		coq = coqHist(&s.Cfg, recs)
+	}
 	return vh.Case{
-		Coq:        coqHist(&s.Cfg, recs),
+		Coq:        coq,
 		Desc:       map[string]interface{}{"cfg": s.Cfg, "history": recs},
 		Class:      s.Class + "/" + mode,
 		Nontrivial: nontrivial,
@@ -342,7 +359,47 @@ func coqCalls(calls [][3]string) string {
 	return vh.CoqList(xs)
 }
 
+// compress groups consecutive identical calls with identical observations into one record with a count
+// (time stamp: that of the first call; all durations of such histories are in the always / never regimes).
+// Consecutive mock-mode sends to one pair that all went out differ only in the returned hash; no call in
+// between could have presented the earlier hashes, so the group carries the last one.
+func compress(recs []obsRec) []obsRec {
+	var out []obsRec
+	for _, r := range recs {
+		if n := len(out); n > 0 {
+			l := &out[n-1]
+			same := l.Kind == r.Kind && l.A == r.A && l.P == r.P && l.Code == r.Code && l.hashID == r.hashID &&
+				l.SmsOK == r.SmsOK && l.Err == r.Err && l.Panic == r.Panic && len(l.Calls) == len(r.Calls)
+			for i := 0; same && i < len(l.Calls); i++ {
+				same = l.Calls[i] == r.Calls[i]
+			}
+			wentOut := r.Kind == "send" && r.Panic == "" && r.Err == "None" && len(r.Calls) == 0
+			if same && (l.rhID == r.rhID || wentOut) {
+				l.Count++
+				l.RHash, l.rhID = r.RHash, r.rhID
+				continue
+			}
+		}
+		r.Count = 1
+		out = append(out, r)
+	}
+	return out
+}
+
+func coqHistR(c *cfgScript, recs []obsRec) string {
+	plain := coqItems(recs)
+	items := make([]string, len(recs))
+	for i := range recs {
+		items[i] = fmt.Sprintf("(%d%%N, %s)", recs[i].Count, plain[i])
+	}
+	return "CHistR " + coqCfg(c) + " " + vh.CoqList(items)
+}
+
 func coqHist(c *cfgScript, recs []obsRec) string {
+	return "CHist " + coqCfg(c) + " " + vh.CoqList(coqItems(recs))
+}
+
+func coqItems(recs []obsRec) []string {
 	items := make([]string, len(recs))
 	for i, r := range recs {
 		var op, ob string
@@ -359,9 +416,13 @@ func coqHist(c *cfgScript, recs []obsRec) string {
 		}
 		items[i] = fmt.Sprintf("(%s, %s)", op, ob)
 	}
-	return fmt.Sprintf("CHist {| cacheSize := %s; mock := %s; codeLen := %s; ttl := %s; minInterval := %s; counterDuration := %s; maxCount := %s; maxVerify := %s |} %s",
+	return items
+}
+
+func coqCfg(c *cfgScript) string {
+	return fmt.Sprintf("{| cacheSize := %s; mock := %s; codeLen := %s; ttl := %s; minInterval := %s; counterDuration := %s; maxCount := %s; maxVerify := %s |}",
 		vh.CoqZ(c.CacheSize), vh.CoqBool(c.Mock), vh.CoqZ(int64(c.CodeLen)), vh.CoqZ(c.TTL), vh.CoqZ(c.MinInterval),
-		vh.CoqZ(c.CounterDuration), vh.CoqZ(int64(c.MaxCount)), vh.CoqZ(int64(c.MaxVerify)), vh.CoqList(items))
+		vh.CoqZ(c.CounterDuration), vh.CoqZ(int64(c.MaxCount)), vh.CoqZ(int64(c.MaxVerify)))
 }
 
 // ---------------------------------------------------------------- nonce generator with a scripted draw function
